@@ -138,6 +138,19 @@ static void canon_iter (DBusMessageIter *it, OutBuf *o)
                         }
                       if (t2.len != o->len - before || memcmp (t2.s, o->s + before, t2.len) != 0) n_fixed_mismatch++;
                       free (t2.s);
+                      /* the block read from a position other than the first element: after k steps it is the last n-k elements */
+                      if (n >= 2)
+                        {
+                          int ks[2], ki; ks[0] = 1; ks[1] = n - 1;
+                          for (ki = 0; ki < 2; ki++)
+                            {
+                              DBusMessageIter sub3; const void *d3 = NULL; int n3 = -1, j;
+                              dbus_message_iter_recurse (it, &sub3);
+                              for (j = 0; j < ks[ki]; j++) dbus_message_iter_next (&sub3);
+                              dbus_message_iter_get_fixed_array (&sub3, &d3, &n3);
+                              if (n3 != n - ks[ki] || (const unsigned char *) d3 != (const unsigned char *) data + (size_t) ks[ki] * sz) n_fixed_mismatch++;
+                            }
+                        }
                     }
                 }
               }
